@@ -65,6 +65,7 @@ var c15Ignores = []string{
 	"(?i)THIS MATCHES NOTHING",  // an inline flag must stay inside its own pattern
 	"LABEL|PROPERTY|UNDEFINED",  // matches nothing unless another pattern's (?i) leaks into it
 	"\\Qa.b",                    // unterminated quoting: literal text, matches nothing
+	"could not parse as YAML",   // the diagnostic of a file that is not YAML at all
 }
 
 func genC15Config(c *Chooser) (cfg string, entries map[string][]string, order []string) {
@@ -184,6 +185,13 @@ func (c15) Eval(c *Chooser, env *Env) *Outcome {
 	for fi := 0; fi < nfiles; fi++ {
 		name := fmt.Sprintf("%s/.github/workflows/%c%d.yml", root, 'a'+byte(fi), fi)
 		text, as, _ := composeWorkflow(c, GenOpts{Ties: true}, fi)
+		if c.Weighted("world.cutoff", 1, 10) {
+			// a file whose writer stopped in the middle of a flow sequence: its only diagnostic is the
+			// YAML parse error, which is a diagnostic like any other for the filter
+			text = text[:len(text)*(1+c.Int("world.cutat", 3))/4] + "\n    broken: [a, {b: c\n"
+			as = nil
+			o.probe("cut_off_workflow_file", 1)
+		}
 		if c.Weighted("world.symlink", 1, 6) {
 			// a workflow that is a symbolic link to a file outside the repository (or inside the
 			// sibling repository) still belongs to the repository that contains its path
